@@ -42,7 +42,39 @@ pub fn gen_doc(t: &mut Tape, gates: &Gates) -> Doc {
     for _ in 0..8 {
         t.byte();
     }
-    Doc { text: lay.text.clone(), lay, lexemes }
+    let mut doc = Doc { text: lay.text.clone(), lay, lexemes };
+    // an OSCAT description header in front of the document (the closing marker first on its line or
+    // not, LF or CRLF inside): the preprocessor blanks the text between the markers, the two markers stay comments
+    // and every lexeme after the header keeps its place
+    if lt.ratio(1, 6) {
+        let nl = if lt.flag() { "\r\n" } else { "\n" };
+        let body = match lt.below(4) {
+            0 => format!("{}version 1.2{}programmer x{}", nl, nl, nl),
+            1 => " one line ".to_string(),
+            2 => format!("{}  indented{}  ", nl, nl),
+            _ => String::new(),
+        };
+        let header = format!("{}{}{}{}", crate::lexeme::OSCAT_OPEN_MARK, body, crate::lexeme::OSCAT_CLOSE_MARK, nl);
+        let shift = header.len();
+        let lines = header.matches('\n').count();
+        for p in doc.lay.pieces.iter_mut() {
+            p.start += shift;
+            p.end += shift;
+            p.line += lines;
+        }
+        // the two markers themselves stay comments (only the text between them is blanked)
+        let open_len = crate::lexeme::OSCAT_OPEN_MARK.len();
+        let close_at = open_len + body.len();
+        let close_line = header[..close_at].matches('\n').count();
+        let close_col_start = header[..close_at].rfind('\n').map(|p| p + 1).unwrap_or(0);
+        let col = close_at - close_col_start;
+        let mk = |start: usize, end: usize, line: usize, col: usize| crate::lexeme::Piece { start, end, line, col_bytes: col, col_chars: col, col_utf16: col, lexeme: None, trivia: Some(TriviaKind::Comment) };
+        doc.lay.pieces.insert(0, mk(close_at, close_at + crate::lexeme::OSCAT_CLOSE_MARK.len(), close_line, col));
+        doc.lay.pieces.insert(0, mk(0, open_len, 0, 0));
+        doc.text = format!("{}{}", header, doc.text);
+        doc.lay.text = doc.text.clone();
+    }
+    doc
 }
 
 /// the unit in which a response counts characters and lengths
